@@ -646,3 +646,30 @@ Example C05_example_bytes_enums :
   /\ enums_fragment_b (ProtoPrintCorr.sb "verif") ProtoPrintFileExample.ex_imp ExEnum.ex_enum_file = true.
 Proof. exact example_enums. Qed.
 Print Assumptions C05_example_bytes_enums.
+
+(* the fragment WITHOUT options (proofs/ProtoPrintBytesLayoutMsgProofs.v): descriptors without source info whose laid-out
+   file has no extend blocks and whose declarations are messages — fields with labels and dotted type names (relative
+   or with the leading dot), oneofs, nested messages and enums to ANY depth — and enums; no options (hence default
+   json names), no map fields, no services. [plain_fragment_b] is syntactic + lexability of names and literals; the
+   layout of the rendered bytes is a LEMMA there (T_elem by structural recursion over the nesting), and the byte-level
+   round trip needs no computed layout test. Still under the computed test of C05_bytes_roundtrip_subclass: map fields,
+   services, extend blocks and every option form (inline, bracket block, option statements, value trees). *)
+From J5V.proofs Require Import ProtoPrintBytesLayoutMsgProofs.
+
+Theorem C05_bytes_layout_plain : forall gen imp D, plain_fragment_b gen imp D = true ->
+  is_layout (print_file_tokens (to_symtab (dfile_symtab imp D)) D) (render_bytes gen imp D) = true.
+Proof. exact bytes_layout_plain. Qed.
+Print Assumptions C05_bytes_layout_plain.
+
+Theorem C05_bytes_roundtrip_plain : forall gen imp D, wf_dfile imp D -> plain_fragment_b gen imp D = true ->
+  let text := render_bytes gen imp D in
+  scan_text text = Some (print_file_tokens (to_symtab (dfile_symtab imp D)) D)
+  /\ exists D0, read_text imp text = Some (erase_dfile D0) /\ desc_equiv D D0 /\ wf_dfile imp D0.
+Proof. exact bytes_roundtrip_plain. Qed.
+Print Assumptions C05_bytes_roundtrip_plain.
+
+Example C05_example_bytes_plain :
+  wf_dfile ProtoPrintFileExample.ex_imp ExPlain.ex_plain_file
+  /\ plain_fragment_b (ProtoPrintCorr.sb "verif") ProtoPrintFileExample.ex_imp ExPlain.ex_plain_file = true.
+Proof. exact example_plain. Qed.
+Print Assumptions C05_example_bytes_plain.
